@@ -4,7 +4,8 @@
      (an agent gets the cell it legally moves to unless another agent legally moves to the same cell: then all of them stay;
      a food is eaten iff the levels of the adjacent agents playing LOAD reach its level);
    - rewards: [share_rule] / [penalty_rule] / [no_load_no_reward] (Lbf_Reward.v) give every per-food, per-agent entry; the equality
-     of the reward VECTORS of step and ref_step is correspondence-checked by the harness (lbf_ref_io). *)
+     of the reward VECTORS of step and ref_step is proved in Lbf_RefReward.v ([ref_step_agrees]) and also
+     correspondence-checked by the harness (lbf_ref_io). *)
 From Coq Require Import QArith.
 Require Import JV.Base.Prelude JV.Base.JaxIndex JV.Base.Codec JV.Base.TimeStep JV.Model.Lbf JV.Proofs.Lbf.
 Open Scope Z_scope.
